@@ -41,6 +41,11 @@ def make_transform(rng, gd, kind):
     elif kind == "empty_label":
         # "" is a legal action name; renaming one action to it must change nothing else
         perm, shuffle, ren = list(range(n)), None, ({rng.choice(labs): ""} if labs and "" not in labs else {})      # renamings are injective
+    elif kind == "blank_labels":
+        # names that differ only by leading / trailing white space are different names
+        variants = ["go", "go ", " go", "go  ", "\tgo", "go\t", " go ", "go\u00a0", "  go", "go\n"]
+        perm, shuffle = list(range(n)), None
+        ren = dict(zip(labs, variants)) if len(labs) <= len(variants) else {}
     elif kind == "digit_labels":
         # names made of digits and one letter, aimed so that "<state index><name>" (or the reverse) is ambiguous between two states
         perm, shuffle, ren = list(range(n)), None, games.digit_renaming(rng, gd, analysis.Analysis(gd))
@@ -93,7 +98,7 @@ def compare(gd, gd2, tf, out, out2, prune, an):
     if s1 != "ok":
         return problems, known, stats
     r1, r2 = out.result, out2.result
-    if tf["kind"] in ("rotate_labels", "reverse_alphabet", "empty_label", "digit_labels") and not tf["shuffle"] and tf["perm"] == list(range(n)):
+    if tf["kind"] in ("rotate_labels", "reverse_alphabet", "empty_label", "digit_labels", "blank_labels") and not tf["shuffle"] and tf["perm"] == list(range(n)):
         # renaming only: numbering and transition order are untouched, so the computation must be the same one step for
         # step - every numeric output identical (==), iteration counts included; strategies equal up to the renaming
         stats["rename_only_pairs"] = 1
@@ -338,7 +343,7 @@ def decide(gd, idx, cls, tier, rng, tfs=None):
         return res
     if tfs is None:
         k = 4 if tier == "quick" else 12
-        tfs = [make_transform(rng, gd, kd) for kd in ["reverse_numbering", "reverse_lists", "rotate_labels", "reverse_alphabet", "empty_label", "digit_labels"] + ["random"] * k]
+        tfs = [make_transform(rng, gd, kd) for kd in ["reverse_numbering", "reverse_lists", "rotate_labels", "reverse_alphabet", "empty_label", "digit_labels", "blank_labels"] + ["random"] * k]
     base = {p: monitors.observed_solve(games.to_solver(gd), p, limit) for p in (True, False)}
     problems, known = [], []
     for tf in tfs:
